@@ -522,7 +522,8 @@ class PseudoModel(object):
 
 
 class Engine(object):
-    def __init__(self, feas_timeout_ms=500, shard=None, shard_depth=0, use_lemmas=True):
+    def __init__(self, feas_timeout_ms=500, shard=None, shard_depth=0, use_lemmas=True, safe=False):
+        self.safe = safe
         self.pre = []
         self.feas_timeout_ms = feas_timeout_ms
         self.shard = shard            # (i, n) or None
@@ -732,7 +733,35 @@ class Engine(object):
             if r == z3.unsat:
                 return 'unsat', None
             return 'unknown', None
-        res = hard_call(work, max(0.3, timeout_ms / 1000.0))
+        if self.safe:
+            res = hard_call(work, max(0.3, timeout_ms / 1000.0))
+        else:
+            # fast path: in-process with z3's cooperative timeout; a process-level alarm (default action: kill) is the
+            # safety net against a solver call that ignores it -- the scheduler then re-runs the job in safe mode
+            import signal
+            s_ = mk()
+            s_.set('timeout', int(timeout_ms))
+            for c in cons:
+                s_.add(c)
+            signal.signal(signal.SIGALRM, signal.SIG_DFL)
+            signal.alarm(int(timeout_ms / 1000.0) + 45)
+            try:
+                r_ = s_.check()
+                if r_ == z3.sat:
+                    res = ('sat', s_.model())
+                elif r_ == z3.unsat:
+                    res = ('unsat', None)
+                else:
+                    res = ('unknown', None)
+            except z3.Z3Exception:
+                res = ('unknown', None)
+            finally:
+                signal.alarm(0)
+            self.stats['feas_checks'] += 1
+            self.stats['feas_s'] += time.time() - t0
+            if res[0] == 'unknown':
+                self.stats['feas_unknown'] += 1
+            return res
         self.stats['feas_checks'] += 1
         self.stats['feas_s'] += time.time() - t0
         if res is None:
